@@ -115,3 +115,47 @@ A(V("c17-anchor-lost", "C17", SU, '        (otTables.Anchor, ("XCoordinate", "YC
 A(V("c17-vsindex-scaled", "C17", SU, '                if op == "vsindex":\n                    continue\n', "", "SCALE-shape"))
 A(V("c17-fontmatrix-mult", "C17", SU, "            topDict.FontMatrix[i] /= visitor.scaleFactor", "            topDict.FontMatrix[i] *= visitor.scaleFactor", "SCALE-shape"))
 A(V("c17-benign-rule-order", "C17", RG, '    (ot.SinglePos, 1): [ReorderCoverage()],\n    (ot.SinglePos, 2): [ReorderCoverage(parallel_list_attr="Value")],', '    (ot.SinglePos, 2): [ReorderCoverage(parallel_list_attr="Value")],\n    (ot.SinglePos, 1): [ReorderCoverage()],', None, expect=0))
+
+# ---- C01 / C02 -------------------------------------------------------------
+OC = "ttLib/tables/otConverters.py"
+OB = "ttLib/tables/otBase.py"
+A(V("c01-writer-typo", "C01", OC, "        writer.writeUShort(value)\n\n    def writeArray(self, writer, font, tableDict, values):\n        writer.writeUShortArray(values)", "        writer.writeUshort(value)\n\n    def writeArray(self, writer, font, tableDict, values):\n        writer.writeUShortArray(values)", "F26"))
+A(V("c01-short-vs-ushort", ["C01", "C02"], OC, "class Short(IntValue):\n    staticSize = 2\n\n    def read(self, reader, font, tableDict):\n        return reader.readShort()", "class Short(IntValue):\n    staticSize = 2\n\n    def read(self, reader, font, tableDict):\n        return reader.readUShort()", "F2b"))
+A(V("c01-staticsize", "C01", OC, "class UInt24(IntValue):\n    staticSize = 3", "class UInt24(IntValue):\n    staticSize = 4", "F2b"))
+A(V("c01-reader-code", "C01", OB, '    def readShort(self):\n        return self.readValue("h", staticSize=2)', '    def readShort(self):\n        return self.readValue("H", staticSize=2)', "F2d"))
+A(V("c01-f2dot14-bits", "C01", OC, "class F2Dot14(BaseFixedValue):\n    staticSize = 2\n    precisionBits = 14\n    readerMethod = \"readShort\"\n    writerMethod = \"writeShort\"", "class F2Dot14(BaseFixedValue):\n    staticSize = 2\n    precisionBits = 14\n    readerMethod = \"readShort\"\n    writerMethod = \"writeUShort\"", "F2b"))
+A(V("c01-ltable-null", "C01", OC, "    def writeNullOffset(self, writer):\n        writer.writeULong(0)", "    def writeNullOffset(self, writer):\n        writer.writeUShort(0)", "F2e"))
+A(V("c01-varidx-shift", ["C01", "C02"], OC, "        innerBits = 1 + (fmt & 0x000F)\n        innerMask = (1 << innerBits) - 1\n        outerShift = 16 - innerBits\n\n        entrySize", "        innerBits = 1 + (fmt & 0x000F)\n        innerMask = (1 << innerBits) - 1\n        outerShift = 15 - innerBits\n\n        entrySize", "F2f"))
+A(V("c01-otdata-repeat", "C01", "ttLib/tables/otData.py", 'repeat="ScriptCount"', 'repeat="ScriptsCount"', "F3"))
+A(V("c01-prewrite-key", "C01", "ttLib/tables/otTables.py", '        rawTable = {"ClassRangeRecord": []}\n        ranges = self._getClassRanges(font)', '        rawTable = {"ClassRangeRecords": []}\n        ranges = self._getClassRanges(font)', "F3k"))
+A(V("c01-head-format", ["C01", "C02"], "ttLib/tables/_h_e_a_d.py", "        data = sstruct.pack(headFormat, self)\n        return data", "        data = sstruct.pack(headFormat, self)[:-2] + struct.pack(\">H\", self.glyphDataFormat)\n        return data", "F1"))
+A(V("c01-gasp-signed", ["C01", "C02"], "ttLib/tables/_g_a_s_p.py", '            rangeMaxPPEM, rangeGaspBehavior = struct.unpack(">HH", data[:4])', '            rangeMaxPPEM, rangeGaspBehavior = struct.unpack(">hH", data[:4])', "F1"))
+A(V("c01-compile-only-override", "C01", "ttLib/tables/_v_m_t_x.py", "    numberOfMetricsName = \"numberOfVMetrics\"", "    numberOfMetricsName = \"numberOfVMetrics\"\n\n    def compile(self, ttFont):\n        return super().compile(ttFont)", "PAIR"))
+A(V("c01-generator-stored", "C01", "ttLib/tables/_c_v_t.py", "            values.byteswap()\n        self.values = values\n", "            values.byteswap()\n        self.values = (v for v in values)\n", "F30"))
+A(V("c01-woff-boundary", "C01", "ttLib/sfnt.py", "if self.uncompressed or len(compressedData) >= self.origLength:", "if self.uncompressed or len(compressedData) > self.origLength:", "WOFF-RAW"))
+A(V("c01-prewrite-sort", "C01", "ttLib/tables/otTables.py", "            for lig in set:\n                ligs.append(lig)", "            for lig in sorted(set, key=lambda l: -len(l.Component)):\n                ligs.append(lig)", "PRE-SORT"))
+A(V("c02-comp-guard", ["C02", "C03"], "ttLib/tables/_g_l_y_f.py", "            if transform[0][1] or transform[1][0]:\n                flags = flags | WE_HAVE_A_TWO_BY_TWO", "            if transform[0][1] and transform[1][0]:\n                flags = flags | WE_HAVE_A_TWO_BY_TWO", "F4-comp"))
+A(V("c02-comp-narrow", "C02", "ttLib/tables/_g_l_y_f.py", "            if (-128 <= x <= 127) and (-128 <= y <= 127):", "            if (-128 <= x <= 128) and (-128 <= y <= 127):", "F4-comp"))
+A(V("c02-comp-flag-layout", "C02", "ttLib/tables/_g_l_y_f.py", '                data = data + struct.pack(">HH", self.firstPt, self.secondPt)\n                flags = flags | ARG_1_AND_2_ARE_WORDS', '                data = data + struct.pack(">HH", self.firstPt, self.secondPt)', "F4-comp"))
+A(V("c01-benign-local-rename", "C01", OC, "        fmt = tableDict[\"EntryFormat\"]\n        nItems = tableDict[\"MappingCount\"]", "        fmt = tableDict[\"EntryFormat\"]\n        nItems = tableDict[\"MappingCount\"]\n        _unused = nItems", None, expect=0))
+
+# ---- C03 -------------------------------------------------------------------
+A(V("c03-attr-renamed-writer", "C03", "ttLib/tables/_k_e_r_n.py", "        attrs = dict(coverage=self.coverage, format=self.format)", "        attrs = dict(cov=self.coverage, format=self.format)", "F7a"))
+A(V("c03-attr-renamed-reader", "C03", "ttLib/tables/_g_a_s_p.py", 'self.gaspRange[safeEval(attrs["rangeMaxPPEM"])] = safeEval(', 'self.gaspRange[safeEval(attrs["rangeMaxPpem"])] = safeEval(', "F7a"))
+A(V("c03-escape-dropped", "C03", "misc/xmlWriter.py", '        """Writes text without indentation."""\n        self._writeraw(escape(string), indent=False)', '        """Writes text without indentation."""\n        self._writeraw(string, indent=False)', "F8"))
+A(V("c03-attr-unescaped", "C03", "misc/xmlWriter.py", "            data = data + ' %s=\"%s\"' % (attr, escapeattr(value))", "            data = data + ' %s=\"%s\"' % (attr, escape(value))", "F8"))
+A(V("c03-quote-not-escaped", "C03", "misc/xmlWriter.py", "    data = data.replace('\"', \"&quot;\")\n", "", "F8"))
+A(V("c03-precision-mix", "C03", "ttLib/tables/TupleVariation.py", "            value = str2fl(attrs[\"value\"], 14)", "            value = str2fl(attrs[\"value\"], 16)", "F7p"))
+A(V("c03-src-fullpath", "C03", "ttLib/ttFont.py", "writer.simpletag(tagToXML(tag), src=os.path.basename(tablePath))", "writer.simpletag(tagToXML(tag), src=tablePath)", "F7i"))
+A(V("c03-benign-newattr", "C03", "ttLib/tables/_g_a_s_p.py", '                    ("rangeMaxPPEM", rangeMaxPPEM),', '                    ("rangeMaxPPEM", rangeMaxPPEM),\n                    ("note", "x"),', None, expect=0))
+
+# ---- C06 -------------------------------------------------------------------
+A(V("c06-mask-offset", "C06", OB, "def packUShort(value):\n    return struct.pack(\">H\", value)", "def packUShort(value):\n    return struct.pack(\">H\", value & 0xFFFF)", "C06-wrap"))
+A(V("c06-assert-back", "C06", OB, "    if not 0 <= value < 0x1000000:\n", "    if False:\n", "C06-wrap"))
+A(V("c06-swallow-overflow", "C06", OB, "                if ok:\n                    continue\n\n                if state is RepackerState.HB_FT:", "                continue\n\n                if state is RepackerState.HB_FT:", "C06-loop"))
+A(V("c06-no-reraise", "C06", OB, "                    state = RepackerState.FT_FALLBACK\n                else:\n                    raise", "                    state = RepackerState.FT_FALLBACK\n                else:\n                    return b\"\"", "C06-loop"))
+A(V("c06-split-off-by-one", "C06", "ttLib/tables/otTables.py", "        newSubTable.Coverage.glyphs = coverage[oldCount:]\n        newSubTable.PairSet = records[oldCount:]", "        newSubTable.Coverage.glyphs = coverage[oldCount:]\n        newSubTable.PairSet = records[oldCount + 1 :]", "F23"))
+A(V("c06-split-boundary", "C06", "ttLib/tables/otTables.py", "        newGlyphs = set(k for k, v in classDefs.items() if v >= oldCount)", "        newGlyphs = set(k for k, v in classDefs.items() if v > oldCount)", "F23"))
+A(V("c06-split-move-lost", "C06", "ttLib/tables/otTables.py", "        newSubTable.alternates[key] = item[1]\n        del oldSubTable.alternates[key]", "        del oldSubTable.alternates[key]", "F23"))
+A(V("c06-promote-first-only", "C06", "ttLib/tables/otTables.py", "                lookup.SubTable[si] = extSubTable\n                ok = 1", "                lookup.SubTable[0] = extSubTable\n                ok = 1", "C06-loop"))
+A(V("c06-dedup-ignores-size", "C06", OB, "        return self.subWriter == other.subWriter and self.offsetSize == other.offsetSize", "        return self.subWriter == other.subWriter", "C06-dedup"))
